@@ -559,7 +559,9 @@ func jsonNorm(v interface{}) interface{} {
 func c06Features(r *engine.Run) {
 	ids := []interface{}{nil, "a", 7, 1.5, "", -3, true, []interface{}{1, "x"}}
 	props := []map[string]interface{}{nil, {}, {"k": []interface{}{1, map[string]interface{}{"x": nil}}}, {"name": "n", "n": 1e21, "neg": -0.5, "u": "é\"\\"}}
-	foreign := []map[string]interface{}{nil, {}, {"bbox": []interface{}{0, 0, 1, 1}}, {"a": 1, "b": "t", "nested": map[string]interface{}{"c": []interface{}{}}}}
+	foreign := []map[string]interface{}{nil, {}, {"bbox": []interface{}{0, 0, 1, 1}}, {"a": 1, "b": "t", "nested": map[string]interface{}{"c": []interface{}{}}},
+		// names that differ from the reserved members only by letter case are ordinary foreign members
+		{"ID": "other"}, {"Id": 7.0, "PROPERTIES": map[string]interface{}{"x": 1.0}}, {"Type": "t", "Geometry": "g"}}
 	geoms := []geom.Geometry{geom.NewPointXY(1, 2).AsGeometry(), {}, geom.NewLineStringXYZ(0, 0, 1, 1, 1, 2).AsGeometry(),
 		geom.NewGeometryCollection([]geom.Geometry{geom.NewEmptyPoint(geom.DimXYZ).AsGeometry(), geom.NewPointXYZ(1, 2, 3).AsGeometry()}).AsGeometry()}
 	var feats []geom.GeoJSONFeature
@@ -768,6 +770,24 @@ func c06Main(r *engine.Run) {
 		}
 	}
 	r.Bound("wide collections (33..500 direct members, 40-member Multi*, collection of collections) × 4 ctypes")
+	// numeral classes: values one ulp from a short decimal, float32-exact values, large integers —
+	// a writer that takes a shortcut for "nice" numbers must still produce the same float64
+	{
+		var nums []float64
+		for _, base := range []float64{2.899818, 152.599902, 0.3, 1234.5, 7.5e8, 1e-3, 9.999999, 5e5 + 0.25, 6378137, 0.1} {
+			nums = append(nums, base, math.Nextafter(base, math.Inf(1)), math.Nextafter(base, math.Inf(-1)))
+		}
+		nums = append(nums, 1<<60, 9007199254740994, float64(float32(0.1)), 134217728, float64(float32(151.2093)), 1e21, 1e22, 1e-7, math.MaxFloat32, 9.5e18)
+		for i := 0; i+2 < len(nums); i++ {
+			for gi, g := range []geom.Geometry{geom.NewPointXYZ(nums[i], -nums[i+1], nums[i+2]).AsGeometry(), geom.NewLineStringXY(nums[i], nums[i+1], -nums[i+2], nums[i]).AsGeometry()} {
+				c := shapeCase{Idx: -100 - 2*i - gi, Note: fmt.Sprintf("numeral classes %v %v %v", nums[i], nums[i+1], nums[i+2]), Sup: "numerals"}
+				if p := engine.SafeCall(func() { c06Geom(r, g, c) }); p != nil {
+					r.Violation("C06/panic", "shape", c, fmt.Sprint(p))
+				}
+			}
+		}
+		r.Bound(fmt.Sprintf("numeral classes: %d special values (short decimals and their two float64 neighbours, float32-exact values, large integers) as Point Z / LineString ordinates", len(nums)))
+	}
 	c06Documents(r)
 	c06Features(r)
 }
@@ -778,6 +798,17 @@ func c06Replay(r *engine.Run, sub string, raw json.RawMessage) error {
 		var c shapeCase
 		if err := json.Unmarshal(raw, &c); err != nil {
 			return err
+		}
+		if c.Sup == "wide" {
+			g, err := c.build()
+			if err != nil {
+				return err
+			}
+			c06Geom(r, g, c)
+			return nil
+		}
+		if c.Sup == "numerals" {
+			return fmt.Errorf("numeral-class cases are replayed by re-running the check (%s)", c.Note)
 		}
 		shapes := universe.Shapes(c.D, c.W)
 		g := universe.Build(shapes[c.Idx], geom.CoordinatesType(c.CT), &validSupplier{fl: universe.FloatSupplier{XYAlpha: floatFinite, ZMAlpha: floatFinite, Off: c.Off}, off: c.Off})
